@@ -72,6 +72,9 @@ def gen_per_op_modes_case(rng, n_samples=1, nsg=None):
     return Case(mb, info, cmds=cmds, data=data, desc=[(c["regex"], c["alg"], c["cfg"]["cp"]) for c in cmds])
 
 
+BMM_CONST_LHS = [0.0]   # share of BATCH_MATMUL operators whose CONSTANT operand is the left one; set by the checks that classify finding D42
+
+
 def gen_case(rng, i, multi_every=6, share_every=4, shipped_every=3, n_samples=1, **kw):
     if i % 9 == 4:
         return gen_fanout_case(rng, n_samples)
@@ -81,6 +84,7 @@ def gen_case(rng, i, multi_every=6, share_every=4, shipped_every=3, n_samples=1,
     kw.setdefault("dup_output", 0.08)
     kw.setdefault("dynamic_batch", 0.15)
     kw.setdefault("fused_act", 0.2)
+    kw.setdefault("bmm_const_lhs", BMM_CONST_LHS[0])
     if i % 7 == 5 and "kinds" not in kw and "n_ops" not in kw:
         # deep graphs with many weight-bearing operators in a row (op-position bookkeeping over many insertions)
         kw["n_ops"], kw["kinds"] = rng.randint(6, 12), gm.WEIGHT_HEAVY
